@@ -514,10 +514,13 @@ impl<'scope, 'data, P: Platform> ResolutionResources<'data, 'scope, P> {
             return;
         }
 
+        crate::verif_perturb!("window: request file before take");
         let Some(definitions_out) = atomic_take.take() else {
             // Another thread just beat us to it.
+            crate::verif_ev!("FILE_TAKE_LOST", file_id.group(), file_id.file(), 0);
             return;
         };
+        crate::verif_ev!("FILE_TAKE", file_id.group(), file_id.file(), 0);
 
         work_items_do(
             file_id,
